@@ -16,6 +16,8 @@ import (
 
 var secpN = ekliptic.Secp256k1_CurveOrder
 
+var sharedKeyBuf [64]byte
+
 const hardened = uint32(1) << 31
 
 // guarded returns a copy of b that sits in the middle of a larger array filled with a canary
@@ -136,6 +138,15 @@ func init() {
 		gk, gc := guarded(key), guarded(cc)
 		k, c := bip32.DerivePrivateChild(gk.slice(), gc.slice(), idx)
 		var direct []string
+		// the same call with the key in a buffer the harness REUSES for every case: a result that
+		// depends on which slice (rather than which bytes) it was given shows up as a difference
+		if len(key) <= len(sharedKeyBuf) {
+			copy(sharedKeyBuf[:], key)
+			k2, c2 := bip32.DerivePrivateChild(sharedKeyBuf[:len(key)], append([]byte{}, cc...), idx)
+			if !bytes.Equal(k, k2) || !bytes.Equal(c, c2) {
+				direct = append(direct, "DerivePrivateChild gives a different result when the key arrives in a reused buffer (state keyed on the caller's slice)")
+			}
+		}
 		gk.check("parent key", &direct)
 		gc.check("chain code", &direct)
 		if len(k) != 32 || len(c) != 32 {
